@@ -13,6 +13,7 @@ import UnicLocale.Spec.Grammar
 import UnicLocale.Spec.Locale
 import UnicLocale.Spec.Likely
 import UnicLocale.Spec.AbsOps
+import UnicLocale.Spec.Match
 import UnicLocale.Gen.Tables
 import UnicLocale.Gen.Cldr
 
@@ -372,6 +373,9 @@ def ansHistBoth (a : List String) : String :=
 
 def flagOf (s : String) : Bool := s == "1"
 
+/-- `from_raw_parts_unchecked(l, s, r, Some(Box::new([])))` for an identifier without variants -/
+def someEmpty (x : LangId) : LangId := if x.variantList.isEmpty then { x with variants := some [] } else x
+
 def withSpec (m s : String) : String := m ++ "\t" ++ s
 
 def answer (line : String) : String :=
@@ -519,27 +523,50 @@ def answer (line : String) : String :=
         | .err e => s!"{errCode e}\t{errCode e}"
         | .panic => "panic"
       | none => "bad"
-    | "match" => match arg 0, arg 1 with
+    | "match" | "matchx" => match arg 0, arg 1 with
       | some x, some y =>
         match LangId.fromBytes x, LangId.fromBytes y with
-        | .ok x, .ok y => s!"ok {b01 (LangId.isMatch x y (flagOf (a[2]?.getD "0")) (flagOf (a[3]?.getD "0")))}"
+        | .ok x, .ok y =>
+          let ra := flagOf (a[2]?.getD "0")
+          let rb := flagOf (a[3]?.getD "0")
+          -- `matchx`: flags 4 and 5 turn an absent variant list into the present-but-empty one (`Some([])`)
+          let x := if op == "matchx" && flagOf (a[4]?.getD "0") then someEmpty x else x
+          let y := if op == "matchx" && flagOf (a[5]?.getD "0") then someEmpty y else y
+          withSpec s!"ok {b01 (LangId.isMatch x y ra rb)}" s!"ok {b01 (Spec.matchesB x y ra rb)}"
         | _, _ => "err"
       | _, _ => "bad"
-    | "locmatch" => match arg 0, arg 1 with
+    | "locmatch" | "locmatchx" => match arg 0, arg 1 with
       | some x, some y =>
         match Locale.fromBytes x, Locale.fromBytes y with
         | .ok x, .ok y =>
           let ra := flagOf (a[2]?.getD "0")
           let rb := flagOf (a[3]?.getD "0")
-          s!"ok {b01 (Locale.isMatch x y ra rb)} {b01 (LangId.isMatch x.id y.id ra rb)}"
+          let x := if op == "locmatchx" && flagOf (a[4]?.getD "0") then { x with id := someEmpty x.id } else x
+          let y := if op == "locmatchx" && flagOf (a[5]?.getD "0") then { y with id := someEmpty y.id } else y
+          withSpec s!"ok {b01 (Locale.isMatch x y ra rb)} {b01 (LangId.isMatch x.id y.id ra rb)}"
+            s!"ok {b01 (Spec.localeMatchesB x y ra rb)} {b01 (Spec.matchesB x.id y.id ra rb)}"
         | _, _ => "err"
       | _, _ => "bad"
     | "langmatch" => match arg 0, arg 1 with
       | some x, some y =>
         match Language.fromBytes x, Language.fromBytes y with
-        | .ok x, .ok y => s!"ok {b01 (Language.isMatch x y (flagOf (a[2]?.getD "0")) (flagOf (a[3]?.getD "0")))}"
+        | .ok x, .ok y =>
+          let ra := flagOf (a[2]?.getD "0")
+          let rb := flagOf (a[3]?.getD "0")
+          withSpec s!"ok {b01 (Language.isMatch x y ra rb)}" s!"ok {b01 (Spec.fieldOkB x y ra rb)}"
         | _, _ => "err"
       | _, _ => "bad"
+    | "convx" => match arg 0 with
+      | some v =>
+        -- LanguageIdentifier -> Locale -> LanguageIdentifier on a value whose variant list is present but empty
+        match LangId.fromBytes v with
+        | .ok li =>
+          let li := someEmpty li
+          let l2 := Locale.ofLangId li
+          s!"ok back={b01 (l2.toLangId == li)};ee={b01 l2.ext.isEmpty};str={esc l2.display};ideq={b01 (l2.id == li)}"
+        | .err e => errCode e
+        | .panic => "panic"
+      | none => "bad"
     | "rel" => match arg 0, arg 1 with
       | some x, some y =>
         match Locale.fromBytes x, Locale.fromBytes y with
